@@ -6,7 +6,8 @@
 //   file x<bytes>                      the scratch file := these bytes (a capture made elsewhere)    -> "0"
 //   read <raw> [filter...]             FileSniffer(scratch[, filter]); raw=1: set_extract_raw_pdus; next_packet() until null
 //                                        -> "P <n>" then n lines "p <ts_us> <pdu_type> x<serialization>"
-//   loop <max> <stop_ts>               sniff_loop(functor, max); functor returns false on the packet with ts == stop_ts -> "L ts ts ..."
+//   loop <max> <stop_ts>               sniff_loop(functor, max); functor returns false on the packet with ts == stop_ts, then next_packet()
+//                                      on the same sniffer until null                                 -> "L ts ts ... | ts ts ..."
 //   iter                               for (auto& pkt : sniffer)                                     -> "L ts ts ..."
 //   parses <dlt> x<frame>              does the link type's top-level class accept the frame (direct constructor call)? -> "A 0|1"
 //   bpf <dlt> <raw frames file must be loaded> <filter...>   per frame of the scratch file (raw mode): libpcap's own verdict
@@ -142,6 +143,9 @@ static void run(const Script& s) {
                     std::ostringstream os; os << " " << us(pk.timestamp()); out += os.str();
                     return us(pk.timestamp()) != stop;
                 }, maxp);
+                // reading goes on with the same sniffer: what the loop did not hand out must still be there
+                out += " |";
+                for (;;) { Packet pk(sn.next_packet()); if (!pk.pdu()) break; std::ostringstream os; os << " " << us(pk.timestamp()); out += os.str(); }
                 printf("%s\n", out.c_str());
             } else if (t[0] == "iter") {
                 FileSniffer sn(path);
